@@ -11,6 +11,9 @@ import (
 	"time"
 
 	"github.com/mlange-42/arche/ecs"
+	"github.com/mlange-42/arche/ecs/event"
+	"github.com/mlange-42/arche/generic"
+	"github.com/mlange-42/arche/listener"
 	"verifharness/runner"
 	"verifharness/sim"
 	"verifharness/wx"
@@ -163,6 +166,11 @@ func init() {
 		// (1) in-process: every history is replayed many times on fresh worlds (fresh maps, hence fresh hash seeds and
 		// iteration offsets) from different goroutines; state key and transcript hash must be reproduced every time.
 		rp.RunJobs(c13Scenarios(rp.Tier), budget/2, func(f *wx.Failure, _ string) bool { return f.Prop == "C13" || f.Prop == "" })
+		// (1b) fixed scripts over the listener and generic packages, replayed 64 times
+		ns := c13Scripts(rp)
+		rp.Trans += ns
+		rp.Extra["script_replays"] = ns
+		fmt.Printf("  scripts over listener.Dispatch and generic.Exchange/Map: %d replays\n", ns)
 		// (2) cross-process: the same exploration in two processes with different GC regimes and scheduling.
 		type pairRes struct {
 			id    string
@@ -284,6 +292,97 @@ func init() {
 			return 1
 		}
 		fmt.Println("no divergence")
+		return 0
+	}
+}
+
+// c13Scripts: determinism of the parts of the API that the world explorer does not drive - listener.Dispatch (the order in
+// which sub-listeners are called) and generic.Exchange / generic.Map (the order in which components are added, which decides
+// the order of archetype nodes and of AddedIDs). A fixed script is replayed on fresh worlds; every replay must produce the
+// same transcript and the same canonical state.
+func c13Scripts(rp *runner.Report) int {
+	type g0 struct{ V int64 }
+	type g1 struct{ V int32 }
+	type g2 struct{ V [3]uint64 }
+	type g3 struct{}
+	type gr struct {
+		ecs.Relation
+		V int8
+	}
+	run := func() (string, []byte) {
+		var log strings.Builder
+		w := ecs.NewWorld(ecs.NewConfig().WithCapacityIncrement(2))
+		mk := func(name string, subs event.Subscription, comps ...ecs.ID) *listener.Callback {
+			cb := listener.NewCallback(func(w *ecs.World, e ecs.EntityEvent) {
+				fmt.Fprintf(&log, "%s:%v:%06b:%v:%v|", name, e.Entity, e.EventTypes, e.AddedIDs, e.RemovedIDs)
+			}, subs, comps...)
+			return &cb
+		}
+		id0 := ecs.ComponentID[g0](&w)
+		d := listener.NewDispatch(mk("a", event.All), mk("b", event.All), mk("c", event.Entities|event.Components), mk("d", event.All, id0), mk("e", event.All))
+		d.AddListener(mk("f", event.All))
+		w.SetListener(&d)
+		ex := generic.NewExchange(&w).Adds(generic.T4[g3, g1, g2, g0]()...).Removes(generic.T2[g1, g3]()...)
+		exr := generic.NewExchange(&w).Adds(generic.T3[g2, gr, g1]()...).WithRelation(generic.T[gr]())
+		t := w.NewEntity()
+		e1 := ex.NewEntity()
+		e2 := exr.NewEntity(t)
+		e3 := w.NewEntity()
+		ex.Add(e3)
+		ex.Remove(e1)
+		generic.NewExchange(&w).Adds(generic.T2[g3, g1]()...).Removes(generic.T2[g0, g2]()...).Exchange(e1)
+		m := generic.NewMap4[g2, g0, g3, g1](&w)
+		e4 := m.New()
+		m.Remove(e4)
+		m.Add(e4)
+		m.NewBatch(2)
+		generic.NewExchange(&w).Adds(generic.T1[gr]()...).WithRelation(generic.T[gr]()).ExchangeBatch(ecs.All(id0), t)
+		q := w.Query(ecs.All())
+		for q.Next() {
+			fmt.Fprintf(&log, "q:%v:%v|", q.Entity(), q.Ids())
+		}
+		fmt.Fprintf(&log, "%v%v%v%v", e1, e2, e3, e4)
+		w.SetListener(nil)
+		return log.String(), w.VerifShape(nil, 0)
+	}
+	ref, shape := run()
+	n := 1
+	for i := 0; i < 63; i++ {
+		n++
+		got, sh := run()
+		if got != ref || string(sh) != string(shape) {
+			a, b := ref, got
+			k := 0
+			for k < len(a) && k < len(b) && a[k] == b[k] {
+				k++
+			}
+			lo := k - 80
+			if lo < 0 {
+				lo = 0
+			}
+			hi := func(x string) string {
+				if k+120 < len(x) {
+					return x[lo : k+120]
+				}
+				return x[lo:]
+			}
+			rp.Violation(&runner.ReplayFile{Scenario: "c13-scripts", Sig: "NONDET:script", Kind: "c13script",
+				Msg:     fmt.Sprintf("the same script (Dispatch with six sub-listeners, generic.Exchange / Map4 with several components) on a fresh world gave a different transcript or state in replay %d: ...%s... vs ...%s...", n, hi(a), hi(b)),
+				OpsText: []string{"see c13Scripts in harness/props/c13.go"}})
+			return n
+		}
+	}
+	return n
+}
+
+func init() {
+	replayers["c13script"] = func(rf *runner.ReplayFile) int {
+		rp := runner.NewReport("C13", "quick")
+		c13Scripts(rp)
+		if len(rp.Violations) > 0 {
+			return 1
+		}
+		fmt.Println("no failure")
 		return 0
 	}
 }
